@@ -314,8 +314,13 @@ var det1Frozen = map[string]string{
 
 // det1ConsultExempt: map ranges that store into and consult the same index, where the
 // entries consulted cannot be entries stored by the same loop; keyed "<obligation key> <map>".
-var det1ConsultExempt = map[string]string{
-	"asm.(*generator).createTypeDefs range oldIndex.typeDefs#2 newIndex.typeDefs": "second loop of createTypeDefs: it stores only the entries of type aliases (`%a = type %b`, selected by the *ast.NamedType filter) and consults only the entry of the definition the alias chain ends in, which is not an alias and was stored by the preceding, completed loop; no iteration reads what another iteration of this loop writes",
+var det1ConsultExempt = map[string]string{}
+
+// det1ResolvedKeyExempt: a loop that stores into an index and consults it is order-insensitive
+// when every consulted key is the result of one of these functions; keyed by the function that
+// produces the key, with the reason why the entries it names are not written by the loop.
+var det1ResolvedKeyExempt = map[string]string{
+	"asm.resolveTypeAlias": "resolveTypeAlias follows a chain of type aliases (`%a = type %b`) to the name of the definition it ends in, which is not an alias; the loop that resolves aliases stores only the entries of aliases (selected by its *ast.NamedType filter) and the non-alias entries were all stored by the preceding, completed loop — no iteration reads what another iteration writes",
 }
 
 func ruleDET1(c *Ctx) []Obligation {
